@@ -10,6 +10,7 @@ import (
 
 func init() {
 	register("C11", func(c *core.Ctx, tier string) {
+		payloadNotTruncated(c, "C11.12") // "ok" only after all packets of the payload were processed: none silently dropped by the decoder
 		corsAndContextEffects(c, "C11.11")
 		pollingEffects(c, "C11.10")
 		constructorChain(c, "C11.9")
